@@ -151,6 +151,17 @@ func mk(op Op, s Sort, v uint64, name string, args ...*Term) *Term {
 	return t
 }
 
+// ResetTable forgets all hash-consed terms except the Boolean constants (IDs stay unique). Called between
+// batches of harnesses whose queries have been discharged, so memory is bounded by one batch.
+func ResetTable() {
+	table = map[key]*Term{}
+	table[key{op: OConst, s: Bool, v: 1}] = True
+	table[key{op: OConst, s: Bool, v: 0}] = False
+	selectMemo = map[[2]int]*Term{}
+	NumTerms = 2
+	NumByOp = map[Op]int{}
+}
+
 func mask(w int) uint64 {
 	if w >= 64 {
 		return ^uint64(0)
@@ -704,7 +715,25 @@ func fbin(op Op, a, b *Term) *Term {
 	case OFLt, OFLe, OFEq:
 		rs = Bool
 	}
+	// push through an ite with constant leaves when the other operand is constant (keeps table look-ups concrete)
+	if b.IsConst() && a.Op == OIte && iteConstLeaves(a, 16) {
+		return Ite(a.A[0], fbin(op, a.A[1], b), fbin(op, a.A[2], b))
+	}
+	if a.IsConst() && b.Op == OIte && iteConstLeaves(b, 16) {
+		return Ite(b.A[0], fbin(op, a, b.A[1]), fbin(op, a, b.A[2]))
+	}
 	return mk(op, rs, 0, "", a, b)
+}
+
+// iteConstLeaves: t is an ite tree (depth <= d) whose leaves are all constants.
+func iteConstLeaves(t *Term, d int) bool {
+	if t.IsConst() {
+		return true
+	}
+	if t.Op != OIte || d == 0 {
+		return false
+	}
+	return iteConstLeaves(t.A[1], d-1) && iteConstLeaves(t.A[2], d-1)
 }
 
 func FAdd(a, b *Term) *Term { return fbin(OFAdd, a, b) }
@@ -736,11 +765,17 @@ func FFromSBV(a *Term) *Term {
 	if a.IsConst() {
 		return FConst(float64(a.SInt()))
 	}
+	if a.Op == OIte && iteConstLeaves(a, 16) {
+		return Ite(a.A[0], FFromSBV(a.A[1]), FFromSBV(a.A[2]))
+	}
 	return mk(OFFromSBV, FP64, 0, "", a)
 }
 func FFromUBV(a *Term) *Term {
 	if a.IsConst() {
 		return FConst(float64(a.V))
+	}
+	if a.Op == OIte && iteConstLeaves(a, 16) {
+		return Ite(a.A[0], FFromUBV(a.A[1]), FFromUBV(a.A[2]))
 	}
 	return mk(OFFromUBV, FP64, 0, "", a)
 }
@@ -767,6 +802,9 @@ func goFloatToInt64(f float64) int64 {
 func FToInt(a *Term, w int) *Term {
 	if a.IsConst() {
 		return Const(w, uint64(goFloatToInt64(a.Float())))
+	}
+	if a.Op == OIte && iteConstLeaves(a, 16) {
+		return Ite(a.A[0], FToInt(a.A[1], w), FToInt(a.A[2], w))
 	}
 	raw := mk(OFToSBVRaw, BV(64), 0, "", a)
 	lo := FConst(-9223372036854775808.0)
